@@ -17,10 +17,11 @@ RULE = (
     "load_checkpoint route; frequency 1..2, retention 1..3 so that deletion runs on almost every save; sync or async) "
     "and 2-3 KILL PLANS owned by the harness: (1) program points - SIGKILL immediately before / after the j-th save() "
     "returns or after wait_until_finished; (2) the N-th file-system system call of a kind (rename, mkdir, unlink, "
-    "rmdir, fsync, N <= 14 per thread) injected with strace -f --seccomp-bpf -e inject=<call>:signal=KILL:when=N; (3) "
+    "rmdir, fsync; N <= 30, counted per thread) injected with strace -f -e inject=<call>:signal=KILL:when=N (without "
+    "--seccomp-bpf, under which strace 6.1 never reaches when=N for N >= 2); (3) "
     "a generated busy-wait of 0..30 ms after the j-th save() returns, then SIGKILL (reaches in-flight background "
     "writes). Optionally the restoring process is itself killed by a second plan (crash-restore-crash). One "
-    "un-killed dry run of the same scenario records solver_state at every save and the final state. Oracle, in a "
+    "un-killed dry run of the same scenario (up to 40 iterations or convergence) records solver_state at every save and the final state. Oracle, in a "
     "fresh process after each kill: restore either raises the documented no-checkpoint error - allowed only if the "
     "unbuffered progress log of the killed process shows that no save can have completed - or returns a state whose "
     "iteration L is a saved step and whose every field equals the dry run's snapshot of iteration L exactly; L must "
@@ -35,7 +36,7 @@ ASSUMPTIONS = [
 ]
 
 CALLS = ["rename", "mkdir", "unlink", "rmdir", "fsync"]
-LIMIT = 400
+LIMIT = 40
 
 
 def plan(tier):
@@ -50,20 +51,23 @@ def strategy(tier, shard):
     kill_plans = st.one_of(
         st.builds(lambda w, j: dict(family="point", when=w, j=j), st.sampled_from(["before_save", "after_save", "after_save", "after_wait"]),
                   st.integers(1, 40)),
-        st.builds(lambda c, n: dict(family="syscall", call=c, n=n), st.sampled_from(CALLS), st.sampled_from([1, 1, 2, 2, 3, 3, 4, 5, 6, 8, 11, 14])),
+        st.builds(lambda c, n: dict(family="syscall", call=c, n=n), st.sampled_from(CALLS), st.sampled_from([1, 2, 2, 3, 3, 4, 5, 6, 7, 8, 9, 10, 12, 20, 30])),
         st.builds(lambda j, d: dict(family="delay", j=j, delay_us=d), st.integers(1, 40),
                   st.one_of(st.integers(0, 3000), st.integers(0, 30000))),
     )
 
     @st.composite
     def cases(draw):
-        problem = draw(ckpt.problem_descs())
-        solver = draw(ckpt.solver_descs())
+        problem = draw(ckpt.problem_descs(rot=shard))
+        solver = draw(ckpt.solver_descs(rot=shard))
         solver["params"]["epsilon"] = draw(st.sampled_from([1e-3, 1e-4]))
         route = "load" if problem["kind"] == "tabular" else draw(st.sampled_from(["restore", "restore", "load"]))
         plans = [draw(kill_plans) for _ in range(draw(st.integers(2, 3)))]
         return dict(problem=problem, solver=solver, f=draw(st.integers(1, 2)), m=draw(st.integers(1, 3)), async_=draw(st.booleans()),
-                    route=route, plans=plans, second_kill=draw(st.one_of(st.none(), kill_plans)))
+                    route=route, plans=plans,
+                    # the restoring process may be killed too; half of those kills come before it commits anything new
+                    second_kill=draw(st.one_of(st.none(), kill_plans, st.just(dict(family="point", when="before_save", j=1)),
+                                               st.builds(lambda d: dict(family="delay", j=1, delay_us=d), st.integers(0, 2000)))))
 
     return cases()
 
@@ -72,7 +76,7 @@ def _wrapper(plan):
     if plan["family"] != "syscall":
         return None
     c = plan["call"]
-    return ["strace", "-f", "--seccomp-bpf", "-o", "/dev/null", "-e", f"trace={c}", "-e", f"inject={c}:signal=KILL:when={int(plan['n'])}",
+    return ["strace", "-f", "-o", "/dev/null", "-e", f"trace={c}", "-e", f"inject={c}:signal=KILL:when={int(plan['n'])}",
             sys.executable]
 
 
@@ -113,8 +117,8 @@ def judge(case):
             return verdict_fail("dry-run:" + dry["error"]["bucket"], f"{dry['error']}", classes=classes)
         snaps, final = dry["snapshots"], dry["final"]
         n_saves = len(dry["saves"])
-        if final["iteration"] >= LIMIT or n_saves < 2:
-            return verdict_ok(nontrivial=False, classes=classes + ["too-short-or-not-converged"])
+        if n_saves < 2:
+            return verdict_ok(nontrivial=False, classes=classes + ["fewer-than-two-saves"])
         n_killed = 0
         stages = []
         for pi, plan in enumerate(case["plans"]):
@@ -129,18 +133,18 @@ def judge(case):
                 if kp["family"] == "syscall" and not have_strace:
                     classes.append("strace-missing:plan-skipped")
                     break
-                if kp["family"] in ("point", "delay"):
+                if kp["family"] in ("point", "delay") and not (ci > 0 and kp["j"] == 1):
                     kp["j"] = 1 + (kp["j"] - 1) % n_saves
                 plog = base / f"progress-{pi}-{ci}.log"
                 if ci == 0:
                     scen = dict(problem=problem, solver=ckpt.with_ckpt(sdesc, d, case["f"], case["m"], case["async_"]), calls=[LIMIT],
                                 snapshot=False, progress_log=str(plog), kill=kp if kp["family"] != "syscall" else None)
                 elif case["route"] == "restore":
-                    scen = dict(solver=dict(kind=kind, params={}), restore=dict(route="restore", dir=str(d)), calls=[LIMIT], snapshot=False,
+                    scen = dict(solver=dict(kind=kind, params={}), restore=dict(route="restore", dir=str(d)), until=LIMIT, snapshot=False,
                                 progress_log=str(plog), kill=kp if kp["family"] != "syscall" else None)
                 else:
                     scen = dict(problem=problem, solver=ckpt.with_ckpt(sdesc, d, case["f"], case["m"], case["async_"]),
-                                restore=dict(route="load", dir=str(d)), calls=[LIMIT], snapshot=False, progress_log=str(plog),
+                                restore=dict(route="load", dir=str(d)), until=LIMIT, snapshot=False, progress_log=str(plog),
                                 kill=kp if kp["family"] != "syscall" else None)
                 rep, rc, err = ckpt.run(scen, wrapper=_wrapper(kp))
                 events = _progress(plog)
@@ -180,10 +184,10 @@ def judge(case):
                     classes.append(f"kill-{kp['family']}:{stage}")
                 # ---- restore oracle in a fresh process (and continue to the end)
                 if case["route"] == "restore":
-                    rscen = dict(solver=dict(kind=kind, params={}), restore=dict(route="restore", dir=str(d)), calls=[LIMIT], snapshot=False)
+                    rscen = dict(solver=dict(kind=kind, params={}), restore=dict(route="restore", dir=str(d)), until=LIMIT, snapshot=False)
                 else:
                     rscen = dict(problem=problem, solver=ckpt.with_ckpt(sdesc, d, case["f"], case["m"], case["async_"]),
-                                 restore=dict(route="load", dir=str(d)), calls=[LIMIT], snapshot=False)
+                                 restore=dict(route="load", dir=str(d)), until=LIMIT, snapshot=False)
                 if r_override is None and ci + 1 < len(chain):
                     continue  # the next chain element restores (and is killed) itself; judged after it
                 r = r_override if r_override is not None else ckpt.run_ok(rscen)
